@@ -181,13 +181,14 @@ PROPS = {
                 "ok / raising; non-trivial = distinct (kind, handler, line sequence)",
     },
     "C20": {
-        "lean": ["AriVerif.Props.C20", "AriVerif.Props.SkelReader", "AriVerif.Props.SkelLifecycle", "AriVerif.Conc.MetaClose", "AriVerif.Conc.MetaFault", "AriVerif.Conc.DataClose", "AriVerif.Conc.DataFault"],
+        "lean": ["AriVerif.Props.C20", "AriVerif.Props.C20A", "AriVerif.Props.SkelReader", "AriVerif.Props.SkelLifecycle", "AriVerif.Conc.MetaClose", "AriVerif.Conc.MetaFault", "AriVerif.Conc.DataClose", "AriVerif.Conc.DataFault"],
         "gen": ["Skeleton"],
         "streams": [s_fault.stream, s_appclose.stream, s_dispatch.stream, s_conc.meta_stream(["C20"], "meta-cosim-close"),
                     s_conc.data_stream(["C20"], "data-cosim-close", tails=True)],
         "trusted": [KERNEL, HARNESS, "the scheduler shim (harness/shim.py): Lock/RLock, Queue, Event, Thread, ThreadPoolExecutor, scripted socket with fault injection, virtual clock",
                     "os._exit is substituted by the shim (recorded, thread unwound); real process exit and real socket shutdown semantics are the OS's",
-                    "Dispatch.lean's close handling tied by the reader-dispatch differential; readerFault / writerFault tied by the fault-injection co-simulation"],
+                    "Dispatch.lean's close handling tied by the reader-dispatch differential; readerFault / writerFault tied by the fault-injection co-simulation",
+                    "Conc/AppClose.lean (the application's own close() from another thread, any number of calls) tied by trace acceptance: the real event log mapped to model actions must be accepted step by step and end in the same observable state (s_appclose.py); the mapping infers the writer's dequeue from its write and places it there (dequeues commute with later enqueues)"],
         "assumptions": ["the close request is the last line the Proxy Adapter sends (lines after it would hit a shut-down pool, DESIGN I-7)",
                         "a blocked recv on a socket closed by another thread raises OSError (the shim's choice; platform-dependent in reality)"],
         "rule": "fault injection on both server kinds under the scheduler: EOF / reset before init, mid-line, between requests, after all; failure "
